@@ -6,7 +6,7 @@
    on the model of the recorded finding (split TRIG sections). *)
 From Coq Require Import String NArith List Bool.
 From RC Require Import lib.Result lib.Bytes model.Layout model.Str model.StrEditor model.Alloc model.ChkIo model.RichCodec
-  model.RichIo proofs.C07_proofs proofs.C08_proofs proofs.C10_proofs proofs.Save_strings proofs.C07_untouched.
+  model.RichIo proofs.C07_proofs proofs.C08_proofs proofs.C10_proofs proofs.Save_strings proofs.Save_sizes proofs.C07_untouched proofs.C07_ops proofs.C07_slots.
 Import ListNotations.
 Local Open Scope N_scope.
 
@@ -76,3 +76,39 @@ Theorem C07_string_ids_are_never_renumbered :
     exists U, T' = T ++ U /\ NoDup U /\ (forall s, In s U -> In s req /\ ~ In s T) /\ (forall s, In s req -> In s (T ++ U)).
 Proof. exact add_strings_lookup. Qed.
 Print Assumptions C07_string_ids_are_never_renumbered.
+
+(* EVERY EDIT HISTORY (induction over the sequence of operations).  Any sequence of editor operations - adding triggers built
+   from any pool of new locations / switches / unit-property sets / texts, upserting unit settings - leaves every section it
+   does not address where and as it was in the rich map ... *)
+Theorem C07_edit_histories_keep_unaddressed_sections :
+  forall p ops r0 r,
+    forallb edit_only ops = true ->
+    fold_left (fun acc o => do r <- acc; apply_op p r o) ops (Ok r0) = Ok r ->
+    forall i s, nth_error r0 i = Some s -> untouched_by ops s = true -> nth_error r i = Some s.
+Proof. exact edits_keep_untouched_sections. Qed.
+Print Assumptions C07_edit_histories_keep_unaddressed_sections.
+
+(* ... and therefore: load-level map r0, ANY such history, both maps saved (each with its own new strings, slots, sound
+   metadata): the sound table is emitted byte for byte as the unedited save emits it. *)
+Theorem C07_sound_table_survives_any_edit_history :
+  forall p ops r0 r wd0 wd d0 d m bin T i ws,
+    forallb rich_form_sec r0 = true -> forallb edit_only ops = true ->
+    fold_left (fun acc o => do r <- acc; apply_op p r o) ops (Ok r0) = Ok r ->
+    filter (named "STR ") r0 = [RDecodedStr "STR " 2 m] ->
+    wf_table 2 m bin -> build_lookup 2 m = Ok T ->
+    Forall clean (flat_map section_strings r0) -> Forall clean (flat_map section_strings r) ->
+    nth_error r0 i = Some (RWav ws) -> names_known T (RWav ws) ->
+    save wd0 r0 = Ok d0 -> save wd r = Ok d ->
+    nth_error d i = nth_error d0 i.
+Proof. exact sound_table_survives_any_edit_history. Qed.
+Print Assumptions C07_sound_table_survives_any_edit_history.
+
+(* LOCATION SLOTS.  Whatever new locations a save has to place: the rebuilt location list is the old list followed by the
+   newly placed ones, and the slot of every index that was occupied still resolves to the location it resolved to. *)
+Theorem C07_existing_location_slots_are_kept :
+  forall r ls mr,
+    filter (named "MRGN") r = [RMrgn ls] -> rebuild_mrgn r = Ok mr ->
+    exists new, fst mr = ls ++ new /\
+      forall i, In i (map fst (by_idx ls)) -> assocN_last i (by_idx (fst mr)) = assocN_last i (by_idx ls).
+Proof. exact existing_location_slots_are_kept. Qed.
+Print Assumptions C07_existing_location_slots_are_kept.
